@@ -170,6 +170,58 @@ fn main() {
             println!("selftest-determinism: {} run seeds, {} mismatches", total, bad);
             std::process::exit(if bad == 0 { 0 } else { 2 });
         }
+        "miri-c09" => {
+            // Miri leg (real rayon pool, Miri's scheduler is the simulator, -Zmiri-seed is the schedule):
+            // tiny generated modules, parse+gc+emit on the parallel build vs the serial build, in-process.
+            let n: u64 = args.get(2).and_then(|s| s.parse().ok()).unwrap_or(2);
+            let threads: u32 = args.get(3).and_then(|s| s.parse().ok()).unwrap_or(3);
+            let mut bad = 0;
+            for i in 0..n {
+                let mut r = prng::Rng::new(prng::run_seed(verif_seed, "miri-c09", i));
+                let mut p = gen::GenParams::draw(&mut r, 6);
+                p.n_funcs = 3 + (i % 4) as u32;
+                p.size_mode = 0;
+                p.n_customs = 0;
+                p.names = 0;
+                p.producers = 0;
+                if i % 3 == 2 {
+                    p.plant_errors = 1;
+                }
+                let g = gen::generate(&p);
+                let mut cfg = types::CfgBits::walrus_default();
+                cfg.code_transform = true;
+                cfg.probe = true;
+                let ops = vec![types::Op::Gc, types::Op::Emit];
+                let (b1, c1, o1) = (g.bytes.clone(), cfg.clone(), ops.clone());
+                let scratch = std::path::PathBuf::from("/tmp");
+                let s1 = scratch.clone();
+                let tser = simrt::run_plain(Some(1), 4 << 20, move || {
+                    let ctx = ser::Ctx { unrelated: &[], scratch: &s1, run_tag: 0 };
+                    ser::run_history(&b1, &c1, &o1, 0, &ctx)
+                })
+                .expect("serial run");
+                let knobs = types::SimKnobs { threads, steal_p: 0, log_thin: 4, strategy: types::Strategy::Random, sched_seed: 0 };
+                let (b2, c2, o2) = (g.bytes.clone(), cfg.clone(), ops.clone());
+                let o = simrt::run_sim(&knobs, None, Some(2), move || {
+                    let ctx = par::Ctx { unrelated: &[], scratch: &scratch, run_tag: 0 };
+                    par::run_history(&b2, &c2, &o2, 0, &ctx)
+                });
+                match o.value {
+                    Some(tpar) => {
+                        if let Some((step, kind, detail)) = life::first_difference(&tser, &tpar) {
+                            println!("MIRI-C09 MISMATCH case {} step {} {}: {}", i, step, kind, detail);
+                            bad += 1;
+                        }
+                    }
+                    None => {
+                        println!("MIRI-C09 ABORT case {}: {:?}", i, o.abort_msg);
+                        bad += 1;
+                    }
+                }
+            }
+            println!("miri-c09: {} cases, {} threads, {} mismatches", n, threads, bad);
+            std::process::exit(if bad == 0 { 0 } else { 1 });
+        }
         "reference" => props::c08::reference_main(),
         "dwarftest" => {
             // attach synthesised DWARF to every valid corpus module and round-trip with generate_dwarf(true)
